@@ -34,9 +34,12 @@ func init() {
 		Check:           c15Check,
 		DistinctClasses: []string{"source-class"},
 		MinEvaluations:  func(tier string) int64 { return 2000 },
-		RequiredCounts:  []string{"argument_maps_checked", "twin_operation_documents", "source:literal", "source:variable", "source:argument-default", "source:variable-default", "source:nested-variable", "source:explicit-null", "source:absent"},
+		RequiredCounts:  []string{"argument_maps_checked", "twin_operation_documents", "deep_literal_documents", "source:literal", "source:variable", "source:argument-default", "source:variable-default", "source:nested-variable", "source:explicit-null", "source:absent"},
 	})
 }
+
+// c15DeepSchema: literals nested far deeper than any sensible guard constant, through a custom scalar and a recursive input.
+const c15DeepSchema = `scalar J input R { r: R v: Int l: [R] } type Query { f(j: J, r: R = {v: 1}): Int }`
 
 func c15Run(x *core.Ctx) {
 	ns := 200
@@ -45,6 +48,22 @@ func c15Run(x *core.Ctx) {
 	}
 	r := x.Rand(uint64(x.Shard))
 	rn := &model.Renderer{}
+	for k := 0; k < 6; k++ {
+		depth := 20 + r.Intn(140)
+		j, in := "1", "{v: 2}"
+		for d := 0; d < depth; d++ {
+			if d%3 == 1 {
+				j = "{k: " + j + "}"
+				in = "{l: [" + in + "]}"
+			} else {
+				j = "[" + j + "]"
+				in = "{r: " + in + "}"
+			}
+		}
+		dc := core.NewCase("pair", "schema", c15DeepSchema, "doc", "{ a: f(j: "+j+") b: f(r: "+in+") c: f }", "expect", "valid", "modes", "", "values", "{}")
+		x.Do(dc, func() { c15Check(x, dc) })
+		x.Count("deep_literal_documents")
+	}
 	for i := 0; i < ns; i++ {
 		sc := c08MakeSchema(r, i)
 		for j := 0; j < 8; j++ {
